@@ -869,6 +869,12 @@ func (r *run) closeServer() {
 	h := r.h
 	h.ServerCloseCall = s.Stamp()
 	s.Go("server-close", false, func() {
+		// A program that closes a server it started in another goroutine has
+		// synchronised with its start-up somehow; going through an API call
+		// that passes the server's configuration Once gives the closing
+		// goroutine that happens-before edge for the configuration fields.
+		var none service.OnPublishFunc
+		r.srv.Unsubscribe("verif/none", &none)
 		r.srv.Close()
 		h.ServerClosed = true
 		h.ServerCloseRet = s.Stamp()
